@@ -124,13 +124,14 @@ _COUNT = [0]
 
 
 def make_server(srv, nad, case, cache={}):
-    key = (case['what'], case['logins'], case['total'], case['reserved'])
+    io = case.get('io', 4)      # hardware input + output channels; 0: the audio-bus space starts at index 0
+    key = (case['what'], case['logins'], case['total'], case['reserved'], io)
     s = cache.get(key)
     if s is None:
         o = srv.ServerOptions()
         o.max_logins = case['logins']
-        o.input_channels = 2
-        o.output_channels = 2
+        o.input_channels = io // 2
+        o.output_channels = io - io // 2
         # every address space gets a different total so that a mix-up of the three allocators shows
         o.buffers, o.control_buses, o.audio_buses = 1024, 16384, 1024
         o.reserved_buffers = o.reserved_control_buses = o.reserved_audio_buses = 0
@@ -139,7 +140,7 @@ def make_server(srv, nad, case, cache={}):
         elif case['what'] == 'cbus':
             o.control_buses, o.reserved_control_buses = case['total'], case['reserved']
         elif case['what'] == 'abus':
-            o.audio_buses, o.reserved_audio_buses = case['total'] + 4, case['reserved']
+            o.audio_buses, o.reserved_audio_buses = case['total'] + io, case['reserved']
         else:
             o.initial_node_id = case['total']
         _COUNT[0] += 1
@@ -382,7 +383,7 @@ def main():
             runs = run_with_tiebreaks(case, lambda c: run_raw_once(eng, c))
         else:
             part = dict(total=case['total'], logins=case['logins'], reserved=case['reserved'],
-                        io=4 if case['what'] == 'abus' else 0, client=case['client'])
+                        io=case.get('io', 4) if case['what'] == 'abus' else 0, client=case['client'])
             runs = run_with_tiebreaks(case, lambda c: run_srv_once(mods, c))
         for choices, ev, proj, points in runs:
             t = dict(case=ci, part=part, ev=ev, choices=choices, points=points)
